@@ -661,7 +661,10 @@ def corrupt_text(text, f):
     elif op == "huge-int":
         toks[i] = toks[i] + "\nZZ = Copy(InFieldName = " + "9" * 5000 + ")\n"
     elif op == "v2-numeric-name":
-        toks[i] = toks[i] + '\nREAD(InFileName = "in.csv", InFieldName = 2020)\nREAD(InFileName = "in.csv", InFieldName = c0)\n'
+        # a pure EEMS 2.0 style file whose result names come from the field names: a number and words
+        return ('READ(InFileName = "in.csv", InFieldName = 2020)\nREAD(InFileName = "in.csv", InFieldName = c0)\n'
+                'SUM(InFieldNames = [c0], NewFieldName = total)\n' + ("COPYFIELD(InFieldName = c0, NewFieldName = 7)\n"
+                                                                      if f["tok2"] % 2 else ""))
     elif op == "deep-list":
         toks[i] = toks[i] + "\nZZ = Sum(InFieldNames = " + "[" * 40 + "a" + "]" * 40 + ")\n"
     return "".join(toks)
